@@ -87,8 +87,21 @@ func evaluate(h *hist, idx int) (err error, nontrivial bool, ambiguous bool) {
 		}
 		return false
 	}
+	h.mu.Lock()
+	obsClosed, obsAt := h.closes > 0, h.closedAt
+	h.mu.Unlock()
 	for _, is := range h.log {
 		if fire(is.before) {
+			// the model says the deadline passed before this operation was issued. If the connection
+			// was in fact still open at that moment the timer is late (loaded machine): within the
+			// on-time tolerance that is legal, and whether the late timer or the operation wins is a
+			// race the property does not resolve - the history is not asserted further.
+			if !(obsClosed && !obsAt.After(is.before)) {
+				if is.before.Sub(expectAt) > tol {
+					return fmt.Errorf("history %d: deadline at +%v passed but the connection was still open %v later when the next operation was issued", idx, expectAt.Sub(h.log[0].before), is.before.Sub(expectAt)), nontrivial, false
+				}
+				return nil, false, true
+			}
 			break
 		}
 		if ambiguous {
